@@ -67,6 +67,8 @@ def validate(ctx, family, module, trace, part, sig_of, count_ev):
 def xdec_sig(e, kind):
     if e["ev"] == "rand":
         return "C08:rand:%s:%s" % (e.get("codec"), kind)
+    if e["ev"] == "str":
+        return "C08:str:%s:%s:%s" % (e.get("codec"), e.get("name"), kind)
     fld = "pristine" if e.get("mut") == "none" else e.get("field")
     return "C08:xdec:%s:%s:%s" % (e.get("codec"), fld, kind)
 
@@ -88,7 +90,7 @@ def run(ctx):
         trace = os.path.join(ctx.tmp, "xdec.ndjson")
         run_restartable(ctx, binary, "xdec", cases, trace, ["-rand", "3000" if q else "100000"], timeout=1500)
         evs = validate(ctx, "wire", "MalformedTrace", trace, "xdec", xdec_sig, ("xdec",))
-        nx = sum(1 for e in evs if e["ev"] == "xdec")
+        nx = sum(1 for e in evs if e["ev"] in ("xdec", "str"))
         ctx.cov["evaluations"] += sum(len(e["runs"]) + 3 * len(e["ms"]) for e in evs if e["ev"] == "xdec")
         ctx.cov["evaluations"] += sum(3 * e["count"] for e in evs if e["ev"] == "rand")
         ctx.cov["distinct_nontrivial"] += nx
